@@ -54,26 +54,34 @@ fn message(s: &Fx, e: &Fx, m: &Fx, signal: &[u8], filler: u8, tail: bool, o: &mu
         x: fxb(&x),
         e: *e,
     };
-    let iw = match w.to_impl() {
-        Ok(Ok(iw)) => iw,
-        other => {
-            vfail!(o, "deserialize_witness rejected a witness: {:?}", other.map(|r| r.map(|_| ())));
-            return None;
+    // zerokit's own values wherever its software range check admits the witness (m < limit = p-1);
+    // for m = p-1 no admissible limit exists, the values then come from the reference formulas
+    let vals = if m.big() == p() - 1u32 {
+        o.label("message-id-p-1/reference-values");
+        let r = formulas::ref_values(&s.big(), &(p() - 1u32), &m.big(), &vec![BigUint::from(3u32); 20], &[0u8; 20], &x, &e.big());
+        cr::ValuesRef { root: r.root, e: e.big(), x: x.clone(), y: r.y, nullifier: r.nullifier }
+    } else {
+        let iw = match w.to_impl() {
+            Ok(Ok(iw)) => iw,
+            other => {
+                vfail!(o, "deserialize_witness rejected a witness: {:?}", other.map(|r| r.map(|_| ())));
+                return None;
+            }
+        };
+        let pv = match guarded(|| rln::protocol::proof_values_from_witness(&iw).map_err(|e| e.to_string())) {
+            Ok(Ok(v)) => v,
+            other => {
+                vfail!(o, "proof_values_from_witness failed: {:?}", other.map(|r| r.map(|_| ())));
+                return None;
+            }
+        };
+        cr::ValuesRef {
+            root: fr_to_big(&pv.root),
+            e: fr_to_big(&pv.external_nullifier),
+            x: fr_to_big(&pv.x),
+            y: fr_to_big(&pv.y),
+            nullifier: fr_to_big(&pv.nullifier),
         }
-    };
-    let pv = match guarded(|| rln::protocol::proof_values_from_witness(&iw).map_err(|e| e.to_string())) {
-        Ok(Ok(v)) => v,
-        other => {
-            vfail!(o, "proof_values_from_witness failed: {:?}", other.map(|r| r.map(|_| ())));
-            return None;
-        }
-    };
-    let vals = cr::ValuesRef {
-        root: fr_to_big(&pv.root),
-        e: fr_to_big(&pv.external_nullifier),
-        x: fr_to_big(&pv.x),
-        y: fr_to_big(&pv.y),
-        nullifier: fr_to_big(&pv.nullifier),
     };
     let mut msg = vec![filler; 128];
     msg.extend(cr::enc_values(&vals));
